@@ -99,9 +99,12 @@ enum Context {
     /// `jalr t0, <imm>` (link in ra) and `sw t0, <imm>(t1)`
     Jalr,
     StoreOffset,
+    /// `jalr t2, t0, <imm>` and `jalr t2, <imm>(t0)`
+    JalrThree,
+    JalrParen,
 }
 
-const CONTEXTS: [Context; 10] = [
+const CONTEXTS: [Context; 12] = [
     Context::Li,
     Context::Addi,
     Context::LoadOffset,
@@ -112,6 +115,8 @@ const CONTEXTS: [Context; 10] = [
     Context::Csr,
     Context::Jalr,
     Context::StoreOffset,
+    Context::JalrThree,
+    Context::JalrParen,
 ];
 
 impl Context {
@@ -127,6 +132,8 @@ impl Context {
             Context::Csr => "csr-operand",
             Context::Jalr => "jalr-offset",
             Context::StoreOffset => "store-offset",
+            Context::JalrThree => "jalr-rd-rs-offset",
+            Context::JalrParen => "jalr-rd-offset(rs)",
         }
     }
     /// (text of the line, column where the literal starts)
@@ -142,9 +149,12 @@ impl Context {
             Context::Csr => "    csrrw t0, ",
             Context::Jalr => "    jalr t0, ",
             Context::StoreOffset => "    sw t0, ",
+            Context::JalrThree => "    jalr t2, t0, ",
+            Context::JalrParen => "    jalr t2, ",
         };
         let suffix = match self {
             Context::LoadOffset | Context::StoreOffset => "(t1)",
+            Context::JalrParen => "(t0)",
             Context::Csr => ", t1",
             _ => "",
         };
@@ -188,7 +198,7 @@ fn observe(ctxk: Context, lit: &str) -> Seen {
             }
             (Context::LoadOffset, ParserNode::Load(l)) => return Seen::Value(i64::from(l.imm.get().value())),
             (Context::StoreOffset, ParserNode::Store(l)) => return Seen::Value(i64::from(l.imm.get().value())),
-            (Context::Jalr, ParserNode::JumpLinkR(j)) => {
+            (Context::Jalr | Context::JalrThree | Context::JalrParen, ParserNode::JumpLinkR(j)) => {
                 // the literal must have become the offset of a jump through t0; anything else
                 // means that it was dropped
                 return if j.rs1.get().to_num() == 5 { Seen::Value(i64::from(j.imm.get().value())) } else { Seen::Nothing };
